@@ -2201,8 +2201,19 @@ func (in *inliner) findSites() {
 					_, body, _ := in.calleeBody(s)
 					simple := true
 					for _, bs := range body.List {
-						switch bs.(type) {
+						switch t := bs.(type) {
 						case *ast.IfStmt, *ast.ReturnStmt:
+						case *ast.AssignStmt:
+							// a named boolean sub-condition (the engine inlines those too)
+							ok := t.Tok == token.DEFINE && len(t.Lhs) == 1 && len(t.Rhs) == 1
+							if ok {
+								if b, isB := info.TypeOf(t.Rhs[0]).Underlying().(*types.Basic); !isB || b.Kind() != types.Bool {
+									ok = false
+								}
+							}
+							if !ok {
+								simple = false
+							}
 						default:
 							simple = false
 						}
